@@ -269,8 +269,12 @@ def check(run):
     run.check(scv and vcs and dotted(vcs[0].func) == scv + '.validate' and all(q.unparse(x.value) == scv for x in rets) and q.strictly_before(Y, ic[0], vcs[0]), r, yi.short,
               'the validated statechart is the returned one', 'differs', Y)
     for x in rets:
+        if ('truthy', 'ignore_validation', '') in guard_atoms(x):
+            continue      # the explicit opt-out
         for v in vcs:
-            run.check(q.never_after(Y, v, x), r, yi.short, 'validation precedes the return', 'returned before validation', x)
+            run.check(q.strictly_before(Y, v, x) or ('falsy', 'ignore_validation', '') in guard_atoms(v) and q.never_after(Y, v, x) and
+                      build_cfg(Y).cut([build_cfg(Y).node_of(v)] + [build_cfg(Y).node_of(t_) for t_ in q.walk(Y, False) if isinstance(t_, ast.If) and 'ignore_validation' in q.unparse(t_.test)],
+                                       build_cfg(Y).node_of(x)), r, yi.short, 'validation precedes the return', 'returned before validation', x)
 
     r = run.rule('C12.3', 'error discipline: every explicit raise reachable from import_from_yaml raises StatechartError (listed: two argument-misuse TypeErrors); schema '
                           'and builder errors are converted')
